@@ -50,8 +50,14 @@ func (g *gen) bigInt() *big.Int {
 			n = new(big.Int).Set(intBoundaries[g.r.Intn(len(intBoundaries))])
 		case 4:
 			n = new(big.Int).Add(intBoundaries[g.r.Intn(len(intBoundaries))], big.NewInt(int64(g.r.Intn(5))-2))
-		case 5, 6:
+		case 5:
 			n = big.NewInt(int64(g.r.Intn(41)) - 20)
+		case 6: // ±2^k + d for any k: byte and word boundaries of the codecs
+			n = pow2(uint(g.r.Intn(256)))
+			if g.r.Bool() {
+				n.Neg(n)
+			}
+			n.Add(n, big.NewInt(int64(g.r.Intn(5))-2))
 		default:
 			bits := g.r.Range(1, 255)
 			n = new(big.Int).SetBytes(g.r.Bytes((bits + 7) / 8))
